@@ -73,8 +73,9 @@ def classes():
         class TableSaving(BaseSaving):
             """User-defined univariate saving: evaluate([s,e])[j] == table[s][e][j] (the data are ignored)."""
 
-            def __init__(self, table=None):
+            def __init__(self, table=None, params_per_variable=1):
                 self.table = table
+                self.params_per_variable = params_per_variable
                 super().__init__()
 
             @property
@@ -82,7 +83,7 @@ def classes():
                 return 1
 
             def get_param_size(self, p):
-                return p
+                return self.params_per_variable * p
 
             def _fit(self, X, y=None):
                 self._tab = np.asarray(self.table, dtype=float)
@@ -221,7 +222,8 @@ def make_savings(case, raw_cost=False):
             pt = np.asarray(sv["point"], dtype=float).reshape(n, p)
             for t in range(n):
                 P[t, t + 1] = pt[t]
-        return np.zeros((n, p)), T(table=C), T(table=P)
+        # different parameter counts for the two savings, so that mixing them up in the penalty construction is visible
+        return np.zeros((n, p)), T(table=C, params_per_variable=2), T(table=P, params_per_variable=1)
     X = np.asarray(sv["X"], dtype=float).reshape(n, p)
     if sv["kind"] == "l2":
         return X, L2Saving(), L2Saving()
